@@ -1,6 +1,7 @@
 SPECIFICATION Spec
 CONSTANTS
   Alphabet <- A9
+  Seeds <- NoSeed
   MaxLen = 5
 INVARIANT RefOrdered
 INVARIANT Emit
